@@ -219,7 +219,7 @@ def check_zoom(case, ctx: Ctx):
 def cli_cases(draw):
     b = draw(st.sampled_from([1000, 1000, 500, 100, 250, 40]))
     nb = [draw(st.integers(600, 1500)), draw(st.integers(500, 900))]
-    kind = draw(st.sampled_from(["list", "kN", "kB", "n", "b", "4dn", "default", "mixed"]))
+    kind = draw(st.sampled_from(["list", "kN", "kB", "n", "b", "4dn", "default", "mixed", "legacy"]))
     k = b * draw(st.sampled_from([1, 1, 2, 5]))
     exact = draw(st.booleans())     # genome length chosen so that ceil(total/256) is exactly a progression member
     if exact:
@@ -239,8 +239,18 @@ def cli_cases(draw):
         spec = draw(st.sampled_from(["b", "B"]))
     elif kind == "4dn":
         b = draw(st.sampled_from([1000, 500, 250]))
-        nb = [draw(st.integers(5200 * (1000 // b) // 4, 1800 * (1000 // b))), 300 * (1000 // b)]
+        # genomes from 1.6 Mb to 7.3 Mb: ceil(genome/256) from below 10 kb to beyond 25 kb, where the 4DN series
+        # (1k, 2k, 5k, 10k, 25k, ...) and the plain 1000N series (.., 10k, 20k, ..) part ways
+        nb = [draw(st.integers(1300 * (1000 // b), 7000 * (1000 // b))), 300 * (1000 // b)]
         spec = draw(st.sampled_from(["4dn", "4DN"]))
+    elif kind == "legacy":
+        # --legacy: quad-tree layout with integer-labelled levels; bases from "fits one tile" (no zoom-out) to 3 rounds
+        if draw(st.booleans()):
+            nb = [draw(st.integers(10, 150)), draw(st.integers(5, 100))]       # at most 256 bins: one tile, level 0 only
+        else:
+            nb = [draw(st.integers(20, 900)), draw(st.integers(10, 500))]
+        spec = None
+        exact = False
     elif kind == "default":
         spec = None
     else:
@@ -310,7 +320,10 @@ def check_cli(case, ctx: Ctx):
 
     b, nb = case["b"], case["nbins"]
     bt = model.binnify(["chr1", "chr2"], [nb[0] * b - (0 if case.get("exact") else b // 3), nb[1] * b], b)
-    rows = sorted([min(i, j), max(i, j), v] for i, j, v in case["px"])
+    rows = sorted([min(i, j) % sum(nb), max(i, j) % sum(nb), v] for i, j, v in case["px"])
+    rows = sorted({(min(i, j), max(i, j)): [min(i, j), max(i, j), v] for i, j, v in rows}.values())
+    if case["kind"] == "legacy":
+        return _check_legacy(case, ctx, bt, rows)
     fields = case.get("fields")
     cols, aggs = ["count"], ("sum",)
     if fields:
@@ -368,6 +381,41 @@ def check_cli(case, ctx: Ctx):
         ctx.clean(work)
     ctx.record(case, len(want) >= 3, ["cli", "cli-" + case["kind"], f"cli-levels={min(len(want), 6)}", "cli-fields=" + ",".join(fields or ["default"]), "cli-finer-base-uri" if case.get("base_m") else "cli-one-base",
                                       "cli-maxres-is-member" if maxres in want else "cli-maxres-between"])
+
+
+def _check_legacy(case, ctx, bt, rows):
+    import cooler
+    from cooler.fileops import is_multires_file, list_coolers
+
+    from ..coolio import create_from_model
+
+    b = case["b"]
+    work = ctx.tmpdir()
+    try:
+        base = os.path.join(work, "base.cool")
+        call("create base", create_from_model, base, bt, rows, True, h5opts={"compression": None})
+        out = os.path.join(work, "z.mcool")
+        rc, _, exc = run_cli(["zoomify", base, "--legacy", "-o", out, "-c", "100000"])
+        check(rc == 0 and exc is None, f"cooler zoomify --legacy failed: exit {rc} {exc!r}")
+        # documented depth: base tiles = smallest power of two covering the genome with 256-bin tiles
+        genome = sum(e[-1] for e in bt["edges"])
+        tiles = -(-genome // (256 * b))
+        depth = 0
+        while 2 ** depth < tiles:
+            depth += 1
+        got = list_coolers(out)
+        check(sorted(got) == sorted(f"/{k}" for k in range(depth + 1)),
+              lambda: f"zoomify --legacy on {gen.n_bins(bt)} bins ({tiles} base tile(s)) produced {got}, the quad tree has levels 0..{depth}")
+        check(is_multires_file(out), f"the legacy-layout file with levels {got} is not recognised as multi-resolution")
+        for k in range(depth + 1):
+            clr = cooler.Cooler(f"{out}::/{k}")
+            f_ = 2 ** (depth - k)
+            wp = model.coarsen_rows(bt, rows, f_, True, ("sum",)) if f_ > 1 else rows
+            check(_read(clr, ["count"]) == wp, f"legacy level {k} differs from coarsening the base by {f_}")
+            check(model.read_bins(clr) == model.bins_rows(model.coarsen_bins(bt, f_) if f_ > 1 else bt), f"legacy level {k} bin table differs")
+    finally:
+        ctx.clean(work)
+    ctx.record(case, True, ["cli", "cli-legacy", f"cli-legacy-depth={depth}"])
 
 
 CHECKS = {"zoom": check_zoom, "cli": check_cli}
